@@ -34,8 +34,8 @@ Definition under (w : world) (i : nat) (f : tmap -> tmap) : world * bool :=
   else let x := get_b w i in
        (tick (put_b w i {| bB := f (bB x); bL := bL x; bD := bD x; bLocks := bLocks x |}), true).
 
-(* the transaction timeout the harness configures (3 s, in ticks of 1/16 s): lock entries are written with it as their TTL *)
-Definition LOCK_TTL : Z := 48.
+(* the transaction timeout the harness configures (2.5 s - not a whole number of seconds - in ticks of 1/16 s): lock entries are written with it as their TTL *)
+Definition LOCK_TTL : Z := 40.
 (* LockTransactionBackend._lock_updates for key k (single task: the lock is free) *)
 Definition acquire (md : mode) (now : Z) (w : world) (i : nat) (k : key) : world * bool :=
   match md with
